@@ -10,5 +10,5 @@ for line in sys.stdin:
   d=json.loads(line)
   v=d.pop('violations'); d.pop('sig_hashes'); s=d.pop('samples')
   print(json.dumps(d))
-  for x in v or []: print('VIOL', x['fingerprint'], '|', x['detail'][:600], '| tapes', len(x['plan_tape']), len(x['sched_tape']), 'shrinkruns', x['shrink_runs']); print('   plan:', json.dumps(x.get('plan'))[:1500])
+  for x in v or []: print('VIOL', x['fingerprint'], '|', x['detail'][:600], '| tapes', len(x['plan_tape'] or []), len(x['sched_tape'] or []), 'shrinkruns', x['shrink_runs']); print('   plan:', json.dumps(x.get('plan'))[:1500])
 "
